@@ -44,6 +44,42 @@ theorem C04_batch_instances (inner : Inst → Task Inst) (inst : Inst) (n : Nat)
   sys_iterBody inner inst n 0
 end Shred
 
+
+namespace Shred
+namespace Scenario
+variable (sc : Scenario)
+
+/-- **C04 (k successive dispatches run each system exactly k times).** -/
+theorem C04_repeated (ls : List (List (Ev SysTag))) (hls : ∀ l, l ∈ ls → Traces sc.plan l) (x : SysTag)
+    (hx : x < sc.final.n ∨ x ∈ sc.tl) :
+    ls.flatten.count (Ev.F x) = ls.length ∧ ls.flatten.count (Ev.D x) = ls.length := by
+  induction ls with
+  | nil => simp
+  | cons l ls ih =>
+    obtain ⟨h1, h2⟩ := sc.C04_exactly_once l (hls l (by simp)) x hx
+    obtain ⟨i1, i2⟩ := ih (fun l' hl' => hls l' (by simp [hl']))
+    simp only [List.flatten_cons, List.count_append, List.length_cons, h1, h2, i1, i2]
+    omega
+
+/-- **C04 (nothing else runs).** Every event of a dispatch belongs to a registered or thread-local system. -/
+theorem C04_only_registered (l : List (Ev SysTag)) (hl : Traces sc.plan l) (e : Ev SysTag) (he : e ∈ l) :
+    e.sys < sc.final.n ∨ e.sys ∈ sc.tl := by
+  obtain ⟨z, hz⟩ := sc.good
+  have := traces_ev_sys hl e he
+  rw [show sc.plan = dispatchTask sc.final.b.stages sc.tl from rfl, sys_dispatchTask] at this
+  rcases List.mem_append.mp this with h | h
+  · left
+    rw [stages_eq_of_zips hz.zips, flatten_sys_eq_allIds hz] at h
+    have hc := List.count_pos_iff.mpr h
+    rw [hz.ids] at hc
+    split at hc <;> omega
+  · exact Or.inr h
+
+end Scenario
+end Shred
+
 #print axioms Shred.Scenario.C04_exactly_once
 #print axioms Shred.C04_exactly_once_nested
 #print axioms Shred.C04_batch_instances
+#print axioms Shred.Scenario.C04_repeated
+#print axioms Shred.Scenario.C04_only_registered
